@@ -71,10 +71,12 @@ class Callback:
     def __enter__(self):
         self._cm = add_callbacks(self)
         self._cm.__enter__()
+        # a callback may be entered again while it is already active
+        self.__dict__.setdefault("_cms", []).append(self._cm)
         return self
 
     def __exit__(self, *args):
-        self._cm.__exit__(*args)
+        self._cms.pop().__exit__(*args)
 
     def register(self) -> None:
         Callback.active.add(self._callback)
@@ -135,11 +137,15 @@ class add_callbacks:
 
     def __init__(self, *callbacks):
         self.callbacks = [normalize_callback(c) for c in callbacks]
+        # Only callbacks that this context activates are deactivated on exit:
+        # those already active through an enclosing context or ``register``
+        # must stay active.
+        self._activated = [c for c in self.callbacks if c not in Callback.active]
         Callback.active.update(self.callbacks)
 
     def __enter__(self):
         return
 
     def __exit__(self, type, value, traceback):
-        for c in self.callbacks:
+        for c in self._activated:
             Callback.active.discard(c)
